@@ -137,6 +137,16 @@ chk("C09",
     "the stored FFT length are listed as open known findings (n=None, interleaved ratchet). Sessions are sampled.",
     "TLA+ design model checked with TLC (positive + negative config); recorded sessions of the real API validated by TLC (trace validation)", "DESIGN.md#c09")
 
+chk("C16",
+    "The nine SESAME (2004) criteria and the epsilon/theta table are transcribed over exact rationals (grid containing the band edges "
+    "0.2/0.5/1/2 Hz, four mean-curve profile families over all peak positions, sigma_A alphabet bracketing every threshold, window "
+    "lengths/counts and sigma_f around the limits, full and trimmed search ranges, a coarse grid with empty (f0/4,f0) intervals); exact "
+    "equalities are ties. TLC checks the band table is total and the monotonicity consequences and exports every instance with its 9 "
+    "verdicts; each is pushed through reliability()/clarity() at all verbosity levels and the verdict vectors compared.",
+    "Trusted: TLC; the transcription of the guideline in spec/Sesame.tla (closed intervals of the guideline vs open ones in code differ "
+    "only at ties, which are not judged); std = ln(sigma_A) evaluated in floating point with thresholds >= 0.5% away.",
+    "TLA+ kernel spec (Sesame) model-checked with TLC; one implementation test per TLC case", "DESIGN.md#c16")
+
 def main():
     man = dict(
         version=1,
